@@ -71,7 +71,7 @@ IndInv == /\ TypeOK /\ LastIsLevel /\ EmptyHist /\ Counted /\ InFlight /\ PcMicr
 IndInit == /\ \E c \in BOOLEAN : \E i \in Int : \E l \in Int : \E x \in Int :
                 ret = [converged |-> c, iterations |-> i, last |-> l, xlvl |-> x]
            /\ IndInv
-(* negative model: the history records the proxy of the iterate BEFORE the update (seeds C13b, C13o are of this kind:     *)
+(* negative model: the history records the proxy of the iterate BEFORE the update (seed C13o is of this kind:              *)
 (* the recorded number is not the residual of the returned iterate).  With this action the induction must FAIL.            *)
 UpdateStale == /\ pc = "update"
                /\ \E nl \in Nat : \E ol \in Nat : nl <= levels /\ ol <= levels /\ nl # ol /\ lvl' = nl /\ hlast' = ol
